@@ -89,7 +89,8 @@
 /* written by the check: every named type of the module; `seeds` is an optional NULL-terminated
  * list of hex DER encodings used as value source where asn_random_fill is not available
  * (types containing ANY or an open type) */
-struct pdu_ent { const char *name; asn_TYPE_descriptor_t *td; const char *const *seeds; };
+struct pdu_ent { const char *name; asn_TYPE_descriptor_t *td; const char *const *seeds;
+                 const char *const *decode_as;   /* optional NULL-terminated list of type names: encodings of THIS type are also decoded as those */ };
 extern struct pdu_ent pdu_table[];
 
 /* ------------------------------------------------------------------ PRNG */
@@ -131,9 +132,11 @@ static NOINSTR void lhex(log_t *l, const uint8_t *b, size_t n) {
     for(i = 0; i < n; i++) { t[0] = hx[b[i] >> 4]; t[1] = hx[b[i] & 15]; lput(l, t, 2); }
 }
 
-typedef struct { uint8_t *p; size_t n, cap; } buf_t;
+typedef struct { uint8_t *p; size_t n, cap; unsigned long calls; long fail_at; } buf_t;
 static NOINSTR int cb_buf(const void *b, size_t n, void *k) {
     buf_t *o = k;
+    if(o->fail_at > 0 && (long)o->calls + 1 == o->fail_at) { o->calls++; return -1; }   /* fault position: the fail_at-th invocation fails */
+    o->calls++;
     if(o->n + n > (1u << 22)) return -1;   /* safety net: an encoder that never stops (BIT_STRING_encode_oer padding loop, C07) */
     if(o->n + n + 1 > o->cap) { o->cap = (o->cap + n + 1) * 2; o->p = realloc(o->p, o->cap); if(!o->p) abort(); }
     memcpy(o->p + o->n, b, n);
@@ -151,6 +154,13 @@ static asn_TYPE_descriptor_t *TY[MAXT];
 static int NTY;
 static unsigned char HAS_NOPER[MAXT], HAS_NOOER[MAXT], HAS_NOFILL[MAXT], HAS_OPEN[MAXT], IS_REC[MAXT], NOT_PDU[MAXT];
 static const char *const *SEEDS[MAXT];
+/* types with a member that has no PER / OER codec used to be kept away from those codecs (NULL op slot called by the constructed
+ * codecs); since /repo commit b8310cc the codecs fail cleanly, so these failure paths are part of the battery */
+static int SKIP_NOCODEC = 0;
+static unsigned long NVALID[MAXT + 1], NINVALID[MAXT + 1];   /* ro/cov mode (single thread): values seen per descriptor, by verdict of its own checker */
+static int COUNT_VALUES;
+#define MAXPEER 6
+static int DECODE_AS[MAXT][MAXPEER], NDECODE_AS[MAXT];
 
 static NOINSTR int ty_index(const asn_TYPE_descriptor_t *td) {
     int i;
@@ -196,6 +206,13 @@ static NOINSTR void collect_types(void) {
     const asn_TYPE_descriptor_t *stack[64];
     for(p = pdu_table; p->name; p++) ty_add(p->td);
     for(p = pdu_table; p->name; p++) SEEDS[ty_index(p->td)] = p->seeds;
+    for(p = pdu_table; p->name; p++) {
+        int me = ty_index(p->td), k;
+        struct pdu_ent *q;
+        for(k = 0; p->decode_as && p->decode_as[k]; k++)
+            for(q = pdu_table; q->name; q++)
+                if(!strcmp(q->name, p->decode_as[k]) && NDECODE_AS[me] < MAXPEER) DECODE_AS[me][NDECODE_AS[me]++] = ty_index(q->td);
+    }
     for(i = 0; i < NTY; i++) {
         unsigned char seen[MAXT];
         HAS_NOPER[i] = (unsigned char)lacks(TY[i], 0, 0, stack);
@@ -216,6 +233,8 @@ struct ctx {
     uint64_t yrng;      /* separate stream for the scheduling noise: never influences the script */
     const char *op;     /* current operation label (ro mode: read by the fault handler) */
     unsigned long nops; /* library calls made */
+    unsigned visits[MAXT]; /* rounds run per type: hand-made values and random ones alternate, the hand-made ones in turn */
+    int idx;            /* script index (thread number) */
     const asn_TYPE_descriptor_t *td;
 };
 static __thread struct ctx *CUR;
@@ -225,7 +244,18 @@ static NOINSTR void maybe_yield(struct ctx *c) {
     c->yrng = c->yrng * 6364136223846793005ull + 1442695040888963407ull;
     if(((c->yrng >> 33) & 3) == 0) sched_yield();
 }
-#define OP(c, name) do { (c)->op = (name); (c)->nops++; maybe_yield(c); } while(0)
+/* ro/cov mode: library calls per operation label (labels are string literals: keyed by address) */
+#define MAXOPL 160
+static struct { const char *name; unsigned long n; } OPL[MAXOPL];
+static int COUNT_OPS;
+static NOINSTR void count_op(const char *name) {
+    int i;
+    for(i = 0; i < MAXOPL; i++) {
+        if(OPL[i].name == name) { OPL[i].n++; return; }
+        if(!OPL[i].name) { OPL[i].name = name; OPL[i].n = 1; return; }
+    }
+}
+#define OP(c, name) do { (c)->op = (name); (c)->nops++; if(COUNT_OPS) count_op(name); maybe_yield(c); } while(0)
 
 static const struct { enum asn_transfer_syntax enc, dec; const char *name; int per, oer, xer; } SYN[] = {
     {ATS_DER, ATS_BER, "der", 0, 0, 0},
@@ -251,6 +281,7 @@ static NOINSTR int use_value(struct ctx *c, const asn_TYPE_descriptor_t *td, con
     OP(c, "asn_check_constraints");
     rc = asn_check_constraints(td, st, errbuf, &errlen);
     valid = (rc == 0);
+    if(COUNT_VALUES) { int k = ty_index(td); if(k < 0) k = MAXT; if(valid) NVALID[k]++; else NINVALID[k]++; }
     lnum(&c->log, "chk", rc);
     if(rc) { lstr(&c->log, " err="); lput(&c->log, errbuf, errlen); }
     OP(c, "check_constraints(cb)");
@@ -381,9 +412,112 @@ static NOINSTR void kind_helpers(struct ctx *c, asn_TYPE_descriptor_t *td, void 
     }
 }
 
-static NOINSTR void decode_and_use(struct ctx *c, asn_TYPE_descriptor_t *td, int s, const uint8_t *b, size_t n, const void *orig, const char *tag) {
+
+/* ------------------------------------------------------------------ other BER forms of a DER encoding */
+/* mode 1: every constructed TLV in the indefinite form (80 ... 00 00); mode 2: every length in the long form (82 hi lo);
+ * mode 3: primitive universal-class string TLVs re-written as constructed strings of two segments (inside indefinite form). */
+static NOINSTR void bput(buf_t *o, const void *b, size_t n) {
+    if(o->n + n + 1 > o->cap) { o->cap = (o->cap + n + 1) * 2; o->p = realloc(o->p, o->cap); if(!o->p) abort(); }
+    memcpy(o->p + o->n, b, n);
+    o->n += n;
+}
+static NOINSTR void bput1(buf_t *o, unsigned v) { uint8_t c = (uint8_t)v; bput(o, &c, 1); }
+static NOINSTR void bput_len(buf_t *o, size_t len, int mode) {
+    if(mode == 2 && len < 65536) { bput1(o, 0x82); bput1(o, (unsigned)(len >> 8)); bput1(o, (unsigned)(len & 255)); return; }
+    if(len < 128) { bput1(o, (unsigned)len); return; }
+    if(len < 256) { bput1(o, 0x81); bput1(o, (unsigned)len); return; }
+    if(len < 65536) { bput1(o, 0x82); bput1(o, (unsigned)(len >> 8)); bput1(o, (unsigned)(len & 255)); return; }
+    bput1(o, 0x83); bput1(o, (unsigned)(len >> 16)); bput1(o, (unsigned)((len >> 8) & 255)); bput1(o, (unsigned)(len & 255));
+}
+static NOINSTR int is_univ_string_tag(unsigned t) {
+    return t == 3 || t == 4 || t == 7 || t == 12 || (t >= 18 && t <= 22) || (t >= 25 && t <= 28) || t == 30;
+}
+/* -> 0 ok, -1 not a sequence of definite-length TLVs (then the variant is simply not tried) */
+static NOINSTR int ber_rewrite(const uint8_t *b, size_t n, buf_t *o, int mode, int depth) {
+    size_t i = 0;
+    if(depth > 48) return -1;
+    while(i < n) {
+        size_t t0 = i, len = 0, k;
+        unsigned first = b[i++], tagno = first & 31;
+        if(tagno == 31) { tagno = 0; do { if(i >= n) return -1; tagno = (tagno << 7) | (b[i] & 127); } while(b[i++] & 128); }
+        if(i >= n) return -1;
+        if(b[i] & 128) {
+            unsigned nl = b[i++] & 127;
+            if(nl == 0 || nl > 3 || i + nl > n) return -1;
+            for(k = 0; k < nl; k++) len = (len << 8) | b[i++];
+        } else len = b[i++];
+        if(i + len > n) return -1;
+        if(first & 0x20) {                       /* constructed */
+            buf_t in = {0, 0, 0, 0, 0};
+            if(ber_rewrite(b + i, len, &in, mode, depth + 1)) { free(in.p); return -1; }
+            bput(o, b + t0, (size_t)((b[t0] & 31) == 31 ? 0 : 1));
+            if((b[t0] & 31) == 31) { size_t e = t0 + 1; while(b[e] & 128) e++; bput(o, b + t0, e + 1 - t0); }
+            if(mode == 1 || mode == 3) { bput1(o, 0x80); bput(o, in.p, in.n); bput1(o, 0); bput1(o, 0); }
+            else { bput_len(o, in.n, mode); bput(o, in.p, in.n); }
+            free(in.p);
+        } else if(mode == 3 && (first & 0xC0) == 0 && is_univ_string_tag(tagno) && len >= (tagno == 3 ? 3u : 2u)) {
+            /* constructed string: two segments; a BIT STRING keeps its unused-bits octet on the last one */
+            size_t cut = (tagno == 3) ? 1 + (len - 1) / 2 : len / 2;
+            bput1(o, first | 0x20); bput1(o, 0x80);
+            if(tagno == 3) {
+                bput1(o, 3); bput_len(o, cut, 0); bput1(o, 0); bput(o, b + i + 1, cut - 1);
+                bput1(o, 3); bput_len(o, 1 + (len - cut), 0); bput1(o, b[i]); bput(o, b + i + cut, len - cut);
+            } else {
+                bput1(o, 4); bput_len(o, cut, 0); bput(o, b + i, cut);
+                bput1(o, 4); bput_len(o, len - cut, 0); bput(o, b + i + cut, len - cut);
+            }
+            bput1(o, 0); bput1(o, 0);
+        } else {
+            size_t e = t0 + 1;
+            if((b[t0] & 31) == 31) { while(b[e] & 128) e++; e++; }
+            bput(o, b + t0, e - t0);
+            bput_len(o, len, mode);
+            bput(o, b + i, len);
+        }
+        i += len;
+    }
+    return 0;
+}
+
+/* size of the C structure of a type, where the tables say it (constructed types and the OCTET STRING family) */
+static NOINSTR size_t struct_size_of(const asn_TYPE_descriptor_t *td) {
+    if(td->op == &asn_OP_SEQUENCE || td->op == &asn_OP_SET || td->op == &asn_OP_CHOICE || td->op == &asn_OP_SET_OF || td->op == &asn_OP_SEQUENCE_OF)
+        return td->specifics ? *(const unsigned *)td->specifics : 0;
+    if(td->op->free_struct == OCTET_STRING_free && td->op != &asn_OP_ANY)
+        return td->specifics ? ((const asn_OCTET_STRING_specifics_t *)td->specifics)->struct_size : sizeof(OCTET_STRING_t);
+    return 0;
+}
+
+/* every encoder on a value that may violate its constraints (decoded from a damaged / foreign-version / unconstrained-sibling
+ * encoding, or mutilated in place): the encoders' own failure paths */
+static NOINSTR void encode_all(struct ctx *c, asn_TYPE_descriptor_t *td, const void *st, const char *tag) {
+    size_t s;
+    int ti = ty_index(td);
+    lstr(&c->log, " <"); lstr(&c->log, tag);
+    for(s = 0; s < NSYN; s++) {
+        buf_t out = {0, 0, 0, 0, 0};
+        asn_enc_rval_t er;
+        if(SKIP_NOCODEC && ti >= 0 && SYN[s].per && HAS_NOPER[ti]) continue;
+        if(SKIP_NOCODEC && ti >= 0 && SYN[s].oer && HAS_NOOER[ti]) continue;
+        OP(c, "asn_encode(unchecked value)");
+        er = asn_encode(0, SYN[s].enc, td, st, cb_buf, &out);
+        lstr(&c->log, " "); lstr(&c->log, SYN[s].name); lnum(&c->log, "e", (long)er.encoded);
+        if(er.encoded < 0 && er.failed_type) { lstr(&c->log, " ft="); lstr(&c->log, er.failed_type->name); }
+        lstr(&c->log, " "); lhex(&c->log, out.p, out.n);
+        free(out.p);
+    }
+    lstr(&c->log, ">");
+}
+
+/* oer_decode() calls td->op->oer_decoder without looking at it: a type without an OER decoder (every SET) makes asn_decode(ATS_*_OER)
+ * and oer_decode() jump to address 0 in the unchanged library (finding C19-oer-decode-null-decoder; probed once per type in `ro` mode,
+ * where the crash is recovered, and kept out of the battery otherwise) */
+static NOINSTR int can_decode(const asn_TYPE_descriptor_t *td, int s) { return !(SYN[s].oer && !td->op->oer_decoder); }
+
+static NOINSTR void decode_and_use(struct ctx *c, asn_TYPE_descriptor_t *td, int s, const uint8_t *b, size_t n, const void *orig, const char *tag, int reenc) {
     void *st2 = 0;
     asn_dec_rval_t rv;
+    if(!can_decode(td, s)) return;
     OP(c, "asn_decode");
     rv = asn_decode(0, SYN[s].dec, td, &st2, b, n);
     lstr(&c->log, " "); lstr(&c->log, tag); lnum(&c->log, "dec", rv.code); lnum(&c->log, "used", (long)rv.consumed);
@@ -394,16 +528,79 @@ static NOINSTR void decode_and_use(struct ctx *c, asn_TYPE_descriptor_t *td, int
             lnum(&c->log, "cmpr", td->op->compare_struct(td, st2, orig));
         }
         use_value(c, td, st2, "d");
+        if(reenc) encode_all(c, td, st2, tag);
     }
     OP(c, "free");
     ASN_STRUCT_FREE(*td, st2);
+}
+
+/* values no decoder produces: a mandatory member missing, nothing / something impossible selected in a CHOICE, the all-zero structure */
+static NOINSTR void mutilated_round(struct ctx *c, int ti) {
+    asn_TYPE_descriptor_t *td = TY[ti];
+    log_t *L = &c->log;
+    void *st = 0;
+    unsigned i, nptr = 0;
+    int isseq = (td->op == &asn_OP_SEQUENCE), isset = (td->op == &asn_OP_SET), isch = (td->op == &asn_OP_CHOICE);
+    if(!(isseq || isset || isch) || HAS_NOFILL[ti] || NOT_PDU[ti]) return;
+    lstr(L, td->name); lstr(L, ":mut");
+    OP(c, "asn_random_fill");
+    if(asn_random_fill(td, &st, IS_REC[ti] ? 24 : 80) != 0 || !st) { lstr(L, " novalue\n"); return; }
+    if(isseq || isset) {
+        /* drop one mandatory member that is held by pointer */
+        for(i = 0; i < td->elements_count; i++)
+            if((td->elements[i].flags & ATF_POINTER) && !td->elements[i].optional) nptr++;
+        if(nptr) {
+            unsigned pick = rbelow(nptr);
+            for(i = 0; i < td->elements_count; i++) {
+                asn_TYPE_member_t *elm = &td->elements[i];
+                if(!((elm->flags & ATF_POINTER) && !elm->optional)) continue;
+                if(pick-- == 0) {
+                    void **pp = (void **)((char *)st + elm->memb_offset);
+                    OP(c, "free");
+                    if(*pp) { ASN_STRUCT_FREE(*elm->type, *pp); *pp = 0; }
+                    lnum(L, "dropped", (long)i);
+                    break;
+                }
+            }
+            use_value(c, td, st, "m");
+            OP(c, "compare_struct(self)");
+            lnum(L, "self", td->op->compare_struct(td, st, st));
+            encode_all(c, td, st, "missing");
+        }
+    } else {
+        /* a presence selector beyond the alternatives; put back before the value is released */
+        unsigned keep;
+        OP(c, "CHOICE_variant_get_presence");
+        keep = CHOICE_variant_get_presence(td, st);
+        {
+            const asn_CHOICE_specifics_t *specs = (const asn_CHOICE_specifics_t *)td->specifics;
+            if(specs->pres_size == sizeof(int)) {
+                int *pres = (int *)((char *)st + specs->pres_offset);
+                *pres = (int)td->elements_count + 3;
+                use_value(c, td, st, "m");
+                encode_all(c, td, st, "badpres");
+                *pres = (int)keep;
+            }
+        }
+    }
+    /* the all-zero structure (what ASN_STRUCT_RESET leaves): nothing selected / every pointer member absent */
+    OP(c, "free(reset)");
+    ASN_STRUCT_RESET(*td, st);
+    use_value(c, td, st, "z");
+    OP(c, "compare_struct(self)");
+    lnum(L, "self", td->op->compare_struct(td, st, st));
+    encode_all(c, td, st, "zero");
+    OP(c, "free");
+    ASN_STRUCT_FREE(*td, st);
+    lstr(L, "\n");
 }
 
 static NOINSTR void one_round(struct ctx *c, int ti) {
     asn_TYPE_descriptor_t *td = TY[ti];
     log_t *L = &c->log;
     void *st = 0, *st2 = 0;
-    int rc, valid;
+    int rc;
+    unsigned visit;
     size_t s, k;
     asn_enc_rval_t er;
     asn_dec_rval_t rv;
@@ -412,37 +609,44 @@ static NOINSTR void one_round(struct ctx *c, int ti) {
     c->td = td;
     if(NOT_PDU[ti]) return;
     lstr(L, td->name); lstr(L, ":");
-    if(SEEDS[ti] && SEEDS[ti][0] && (HAS_NOFILL[ti] || rbelow(2))) {
+    visit = c->visits[ti]++;
+    if(SEEDS[ti] && SEEDS[ti][0] && (HAS_NOFILL[ti] || (visit & 1) == 0)) {
         /* value from a hand-made DER encoding */
         int ns = 0; const char *h; uint8_t sb[256]; size_t sn = 0;
         while(SEEDS[ti][ns]) ns++;
-        h = SEEDS[ti][rbelow(ns)];
-        for(; h[0] && h[1] && sn < sizeof sb; h += 2) { unsigned v = 0; sscanf(h, "%2x", &v); sb[sn++] = (uint8_t)v; }
-        OP(c, "ber_decode(seed)");
-        rv = ber_decode(0, td, &st, sb, sn);
+        h = SEEDS[ti][((HAS_NOFILL[ti] ? visit : visit / 2) + (unsigned)c->idx) % (unsigned)ns];
+        {   /* "oer:", "uper:", "xer:" in front of the hex digits select the syntax of a hand-made encoding; BER otherwise */
+            enum asn_transfer_syntax syn = ATS_BER;
+            if(!strncmp(h, "oer:", 4)) { syn = ATS_BASIC_OER; h += 4; }
+            else if(!strncmp(h, "uper:", 5)) { syn = ATS_UNALIGNED_BASIC_PER; h += 5; }
+            else if(!strncmp(h, "xer:", 4)) { syn = ATS_BASIC_XER; h += 4; }
+            for(; h[0] && h[1] && sn < sizeof sb; h += 2) { unsigned v = 0; sscanf(h, "%2x", &v); sb[sn++] = (uint8_t)v; }
+            OP(c, "asn_decode(seed)");
+            rv = asn_decode(0, syn, td, &st, sb, sn);
+        }
         lnum(L, "seed", rv.code);
-        if(rv.code != RC_OK) { OP(c, "free"); ASN_STRUCT_FREE(*td, st); st = 0; }
-    } else if(!HAS_NOFILL[ti]) {
+        if(rv.code != RC_OK) { OP(c, "free"); ASN_STRUCT_FREE(*td, st); st = 0; }   /* a directed undecodable input: the decoder's failure path ran */
+    }
+    if(!st && !HAS_NOFILL[ti]) {
         OP(c, "asn_random_fill");
         rc = asn_random_fill(td, &st, IS_REC[ti] ? 24 : 60 + rbelow(200));
         lnum(L, "fill", rc);
         if(rc != 0) st = 0;
     }
     if(!st) { lstr(L, " novalue\n"); return; }
-    valid = use_value(c, td, st, "v");
+    use_value(c, td, st, "v");
     OP(c, "compare_struct(self)");
     lnum(L, "self", td->op->compare_struct(td, st, st));
     /* compare with NULL is left out: BIT_STRING_compare dereferences a NULL operand in the unchanged library */
     kind_helpers(c, td, st);
 
     for(s = 0; s < NSYN; s++) {
-        buf_t out = {0, 0, 0};
+        buf_t out = {0, 0, 0, 0, 0};
         asn_encode_to_new_buffer_result_t nb;
-        if(SYN[s].per && HAS_NOPER[ti]) continue;
-        if(SYN[s].oer && HAS_NOOER[ti]) continue;
-        /* a value that fails its own constraint check is not OER-encoded: BIT_STRING_encode_oer never
-         * terminates on a fixed-size BIT STRING value that is too short (unchanged library; C07's area) */
-        if(SYN[s].oer && !valid) continue;
+        if(SKIP_NOCODEC && SYN[s].per && HAS_NOPER[ti]) continue;
+        if(SKIP_NOCODEC && SYN[s].oer && HAS_NOOER[ti]) continue;
+        /* (values that fail their own constraint check are OER-encoded too since /repo commit 668e2d3 ended the
+         * BIT_STRING_encode_oer padding loop) */
         lstr(L, " {"); lstr(L, SYN[s].name);
         OP(c, "asn_encode");
         er = asn_encode(0, SYN[s].enc, td, st, cb_buf, &out);
@@ -456,30 +660,119 @@ static NOINSTR void one_round(struct ctx *c, int ti) {
         nb = asn_encode_to_new_buffer(0, SYN[s].enc, td, st);
         lnum(L, "newbuf", (long)nb.result.encoded);
         free(nb.buffer);
-        if(SYN[s].dec != ATS_INVALID && out.n < 100000) {
-            decode_and_use(c, td, s, out.p, out.n, st, "rt");
+        /* fault position: the output callback fails at its first, second, a middle and its last invocation */
+        {
+            unsigned long ncalls = out.calls, kk;
+            long pos[4];
+            pos[0] = 1; pos[1] = 2; pos[2] = ncalls ? 1 + (long)rbelow((unsigned)ncalls) : 1; pos[3] = (long)ncalls;
+            for(kk = 0; kk < 4; kk++) {
+                buf_t fo = {0, 0, 0, 0, 0};
+                if(pos[kk] < 1 || (unsigned long)pos[kk] > ncalls || (kk > 0 && pos[kk] == pos[kk - 1])) continue;
+                fo.fail_at = pos[kk];
+                OP(c, "asn_encode(callback fails)");
+                errno = 0;
+                er = asn_encode(0, SYN[s].enc, td, st, cb_buf, &fo);
+                lnum(L, "cbf", pos[kk]); lnum(L, "r", (long)er.encoded); lnum(L, "calls", (long)fo.calls);
+                free(fo.p);
+            }
+        }
+        if(SYN[s].dec != ATS_INVALID && out.n < 100000 && can_decode(td, s)) {
+            int pk;
+            decode_and_use(c, td, s, out.p, out.n, st, "rt", 0);
+            if(s == 0) {
+                /* the same value in the other BER forms: indefinite lengths, long-form lengths, constructed strings; one-shot and fed byte-wise */
+                int mode;
+                for(mode = 1; mode <= 3; mode++) {
+                    buf_t alt = {0, 0, 0, 0, 0};
+                    static const char *const MN[] = {"", "indef", "longlen", "cstr"};
+                    if(ber_rewrite(out.p, out.n, &alt, mode, 0) == 0 && alt.n) {
+                        decode_and_use(c, td, s, alt.p, alt.n, st, MN[mode], 0);
+                        if(alt.n < 600) {
+                            size_t off = 0, step = 1; int guard = 0;
+                            st2 = 0;
+                            OP(c, "ber_decode(chunked)");
+                            do {
+                                size_t take = off + step > alt.n ? alt.n - off : step;
+                                rv = ber_decode(0, td, &st2, alt.p + off, take);
+                                off += rv.consumed;
+                                if(rv.code == RC_WMORE && rv.consumed == 0) step++; else step = 1;
+                            } while(rv.code == RC_WMORE && off < alt.n && ++guard < 4000);
+                            lnum(L, "chunk", rv.code); lnum(L, "off", (long)off);
+                            OP(c, "free");
+                            ASN_STRUCT_FREE(*td, st2);
+                        }
+                    }
+                    free(alt.p);
+                }
+            }
+            if(SYN[s].xer && out.n < 20000) {
+                /* XML prolog, comment and white space in front of the document */
+                static const char pro[] = "<?xml version=\"1.0\" encoding=\"UTF-8\"?>\n<!-- c19 -->\n  ";
+                uint8_t *x = malloc(sizeof pro + out.n);
+                memcpy(x, pro, sizeof pro - 1); memcpy(x + sizeof pro - 1, out.p, out.n);
+                decode_and_use(c, td, s, x, sizeof pro - 1 + out.n, st, "prolog", 0);
+                free(x);
+            }
+            {
+                /* decode into a structure the caller provides, and under a stack limit (generous, then tiny) */
+                size_t ssz = struct_size_of(td);
+                asn_codec_ctx_t cx;
+                if(ssz) {
+                    st2 = calloc(1, ssz);
+                    OP(c, "asn_decode(into caller's structure)");
+                    rv = asn_decode(0, SYN[s].dec, td, &st2, out.p, out.n);
+                    lnum(L, "pre", rv.code);
+                    if(rv.code == RC_OK) { OP(c, "compare_struct"); lnum(L, "cmp", td->op->compare_struct(td, st, st2)); }
+                    OP(c, "free");
+                    ASN_STRUCT_FREE(*td, st2);
+                }
+                cx.max_stack_size = 1u << 20;
+                st2 = 0;
+                OP(c, "asn_decode(stack limit)");
+                rv = asn_decode(&cx, SYN[s].dec, td, &st2, out.p, out.n);
+                lnum(L, "lim", rv.code);
+                OP(c, "free");
+                ASN_STRUCT_FREE(*td, st2);
+                cx.max_stack_size = 64;
+                st2 = 0;
+                OP(c, "asn_decode(stack limit)");
+                rv = asn_decode(&cx, SYN[s].dec, td, &st2, out.p, out.n);
+                lnum(L, "tiny", rv.code);
+                OP(c, "free");
+                ASN_STRUCT_FREE(*td, st2);
+            }
+            /* the same octets as another version / a differently constrained sibling of the type */
+            for(pk = 0; pk < NDECODE_AS[ti]; pk++) {
+                int di = DECODE_AS[ti][pk];
+                if(di < 0 || NOT_PDU[di]) continue;
+                if(SKIP_NOCODEC && ((SYN[s].per && HAS_NOPER[di]) || (SYN[s].oer && HAS_NOOER[di]))) continue;
+                c->td = TY[di];
+                lstr(L, " as:"); lstr(L, TY[di]->name);
+                decode_and_use(c, TY[di], s, out.p, out.n, 0, "peer", 1);
+                c->td = td;
+            }
             /* invalid / damaged inputs (types holding an open type included since /repo commit 1c56988 fixed the
              * failure clean-up of OPEN_TYPE_*_get, finding C18-opentype-null-specifics) */
             if(out.n > 0) {
                 uint8_t *m = malloc(out.n + 8);
                 size_t cut = rbelow((unsigned)out.n);
                 memcpy(m, out.p, out.n);
-                decode_and_use(c, td, s, m, cut, 0, "cut");
+                decode_and_use(c, td, s, m, cut, 0, "cut", 0);
                 for(k = 0; k < 2; k++) {
                     size_t pos = rbelow((unsigned)out.n);
                     uint8_t old = m[pos];
                     m[pos] ^= (uint8_t)(1u << rbelow(8));
-                    decode_and_use(c, td, s, m, out.n, 0, "flip");
+                    decode_and_use(c, td, s, m, out.n, 0, "flip", 1);
                     m[pos] = old;
                 }
                 memset(m + out.n, 0, 8);
-                decode_and_use(c, td, s, m, out.n + 8, 0, "pad");
+                decode_and_use(c, td, s, m, out.n + 8, 0, "pad", 0);
                 free(m);
             }
             {
                 uint8_t junk[24];
                 for(k = 0; k < sizeof junk; k++) junk[k] = (uint8_t)rnext();
-                decode_and_use(c, td, s, junk, 1 + rbelow(sizeof junk - 1), 0, "junk");
+                decode_and_use(c, td, s, junk, 1 + rbelow(sizeof junk - 1), 0, "junk", 0);
             }
         }
         free(out.p);
@@ -488,7 +781,7 @@ static NOINSTR void one_round(struct ctx *c, int ti) {
 
     /* the per-syntax entry points themselves */
     {
-        buf_t out = {0, 0, 0};
+        buf_t out = {0, 0, 0, 0, 0};
         uint8_t *nbuf = 0; ssize_t nn;
         char *mem = 0; size_t memlen = 0; FILE *f;
         lstr(L, " {direct");
@@ -496,6 +789,8 @@ static NOINSTR void one_round(struct ctx *c, int ti) {
         er = der_encode(td, st, cb_buf, &out); lnum(L, "der", (long)er.encoded);
         OP(c, "der_encode_to_buffer");
         er = der_encode_to_buffer(td, st, fixed, sizeof fixed); lnum(L, "derb", (long)er.encoded);
+        OP(c, "der_encode(no callback: size only)");
+        er = der_encode(td, st, 0, 0); lnum(L, "dersz", (long)er.encoded);
         OP(c, "ber_decode");
         st2 = 0; rv = ber_decode(0, td, &st2, out.p, out.n); lnum(L, "ber", rv.code);
         if(rv.code == RC_OK && st2) {
@@ -545,10 +840,12 @@ static NOINSTR void one_round(struct ctx *c, int ti) {
         lnum(L, "xfp", xer_fprint(f, td, st));
         fclose(f); free(mem);
 #ifndef ASN_DISABLE_PER_SUPPORT
-        if(!HAS_NOPER[ti]) {
+        if(!SKIP_NOCODEC || !HAS_NOPER[ti]) {
             out.n = 0;
             OP(c, "uper_encode");
             er = uper_encode(td, 0, st, cb_buf, &out); lnum(L, "uper", (long)er.encoded);
+            OP(c, "uper_encode(no callback: size only)");
+            er = uper_encode(td, 0, st, 0, 0); lnum(L, "upersz", (long)er.encoded);
             OP(c, "uper_encode_to_buffer");
             er = uper_encode_to_buffer(td, 0, st, fixed, sizeof fixed); lnum(L, "uperb", (long)er.encoded);
             OP(c, "uper_encode_to_new_buffer");
@@ -565,16 +862,20 @@ static NOINSTR void one_round(struct ctx *c, int ti) {
         }
 #endif
 #ifndef ASN_DISABLE_OER_SUPPORT
-        if(!HAS_NOOER[ti] && valid) {
+        if(!SKIP_NOCODEC || !HAS_NOOER[ti]) {
             out.n = 0;
-            OP(c, "oer_encode");
-            er = oer_encode(td, st, cb_buf, &out); lnum(L, "oer", (long)er.encoded);
+            if(td->op->oer_encoder) {   /* oer_encode() does not look at the slot either (same finding as can_decode) */
+                OP(c, "oer_encode");
+                er = oer_encode(td, st, cb_buf, &out); lnum(L, "oer", (long)er.encoded);
+            }
             OP(c, "oer_encode_to_buffer");
             er = oer_encode_to_buffer(td, 0, st, fixed, sizeof fixed); lnum(L, "oerb", (long)er.encoded);
-            OP(c, "oer_decode");
-            st2 = 0; rv = oer_decode(0, td, &st2, out.p, out.n); lnum(L, "oerd", rv.code);
-            OP(c, "free");
-            ASN_STRUCT_FREE(*td, st2);
+            if(td->op->oer_decoder) {
+                OP(c, "oer_decode");
+                st2 = 0; rv = oer_decode(0, td, &st2, out.p, out.n); lnum(L, "oerd", rv.code);
+                OP(c, "free");
+                ASN_STRUCT_FREE(*td, st2);
+            }
         }
 #endif
         free(out.p);
@@ -640,6 +941,38 @@ static NOINSTR void one_round(struct ctx *c, int ti) {
     lstr(L, "\n");
 }
 
+
+/* calls with no structure at all: every operation must answer (fail) without touching anything */
+static NOINSTR void null_round(struct ctx *c, int ti) {
+    asn_TYPE_descriptor_t *td = TY[ti];
+    log_t *L = &c->log;
+    char errbuf[64]; size_t errlen = sizeof errbuf;
+    char *mem = 0; size_t memlen = 0; FILE *f;
+    size_t s;
+    if(NOT_PDU[ti]) return;
+    c->td = td;
+    lstr(L, td->name); lstr(L, ":null");
+    OP(c, "asn_check_constraints(NULL)");
+    lnum(L, "chk", asn_check_constraints(td, 0, errbuf, &errlen));
+    OP(c, "asn_fprint(NULL)");
+    f = open_memstream(&mem, &memlen);
+    lnum(L, "print", asn_fprint(f, td, 0));
+    fclose(f); free(mem);
+    for(s = 0; s < NSYN; s++) {
+        buf_t out = {0, 0, 0, 0, 0};
+        asn_enc_rval_t er;
+        if(SKIP_NOCODEC && SYN[s].per && HAS_NOPER[ti]) continue;
+        if(SKIP_NOCODEC && SYN[s].oer && HAS_NOOER[ti]) continue;
+        OP(c, "asn_encode(NULL)");
+        er = asn_encode(0, SYN[s].enc, td, 0, cb_buf, &out);
+        lnum(L, SYN[s].name, (long)er.encoded);
+        free(out.p);
+    }
+    OP(c, "free(NULL)");
+    ASN_STRUCT_FREE(*td, 0);
+    lstr(L, "\n");
+}
+
 /* operations that take no structure: tag / length / number helpers */
 static NOINSTR void leaf_round(struct ctx *c) {
     log_t *L = &c->log;
@@ -700,12 +1033,14 @@ static NOINSTR void script(struct ctx *c, uint64_t seed, int idx, int iters) {
     int it, i;
     tl_rng = seed * 1000003u + (uint64_t)idx * 7919u + 17;
     c->yrng = tl_rng ^ 0x5555555555555555ull;
+    c->idx = idx;
+    memset(c->visits, 0, sizeof c->visits);
     CUR = c;
     for(it = 0; it < iters; it++) {
         /* every thread starts at a different type and walks all of them */
         int start = (int)((seed + (uint64_t)idx * 5 + (uint64_t)it * 3) % (uint64_t)(NTY ? NTY : 1));
         leaf_round(c);
-        for(i = 0; i < NTY; i++) one_round(c, (start + i) % NTY);
+        for(i = 0; i < NTY; i++) { one_round(c, (start + i) % NTY); mutilated_round(c, (start + i) % NTY); null_round(c, (start + i) % NTY); }
     }
 }
 
@@ -776,7 +1111,7 @@ static NOINSTR const char *canary_name(uintptr_t a) {
 #define MAXSEG 8
 static struct seg { uintptr_t lo, hi; uint8_t *snap; } SEGS[MAXSEG];
 static int NSEG;
-static uintptr_t LIB_BASE, RELRO_LO, RELRO_HI;
+static uintptr_t LIB_BASE, RELRO_LO, RELRO_HI, LIB_LO = ~(uintptr_t)0, LIB_HI;
 static long PAGE;
 
 struct store_ev { uintptr_t pc, addr; uint8_t oldb[16], newb[16]; const char *op; const char *type; unsigned long count; };
@@ -797,6 +1132,10 @@ static NOINSTR int phdr_cb(struct dl_phdr_info *info, size_t size, void *data) {
     LIB_BASE = info->dlpi_addr;
     for(i = 0; i < info->dlpi_phnum; i++) {
         const ElfW(Phdr) *ph = &info->dlpi_phdr[i];
+        if(ph->p_type == PT_LOAD) {
+            if(info->dlpi_addr + ph->p_vaddr < LIB_LO) LIB_LO = info->dlpi_addr + ph->p_vaddr;
+            if(info->dlpi_addr + ph->p_vaddr + ph->p_memsz > LIB_HI) LIB_HI = info->dlpi_addr + ph->p_vaddr + ph->p_memsz;
+        }
         if(ph->p_type == PT_LOAD && (ph->p_flags & PF_W) && NSEG < MAXSEG) {
             SEGS[NSEG].lo = info->dlpi_addr + ph->p_vaddr;
             SEGS[NSEG].hi = info->dlpi_addr + ph->p_vaddr + ph->p_memsz;
@@ -863,6 +1202,105 @@ static NOINSTR void on_trap(int sig, siginfo_t *si, void *ucv) {
     uc->uc_mcontext.gregs[REG_EFL] &= ~(greg_t)0x100;
 }
 
+
+/* Where do the parts of every descriptor live?  The hypothesis descr_unchanged is about a set D of locations; the detector
+ * protects the writable PT_LOAD segment of libc19mod.so.  Every table a codec can reach from a descriptor (the descriptor, its
+ * tag arrays, member table, specifics and the maps hanging off them, constraint records, and the same for every member) must be
+ * inside that segment (class W: a store is seen) or in a read-only mapping of the library (class R: a store cannot happen);
+ * a part anywhere else (heap, the executable, another object: class X) would be writable and unwatched. */
+static unsigned long PARTS_W, PARTS_R, PARTS_X;
+static NOINSTR void part(const asn_TYPE_descriptor_t *td, const char *what, const void *p) {
+    uintptr_t a = (uintptr_t)p;
+    int i;
+    if(!p) return;
+    for(i = 0; i < NSEG; i++) if(a >= SEGS[i].lo && a < SEGS[i].hi) { PARTS_W++; return; }
+    if(a >= LIB_LO && a < LIB_HI) { PARTS_R++; return; }
+    PARTS_X++;
+    if(PARTS_X <= 40) printf("PARTX type=%s part=%s\n", td->name, what);
+}
+static NOINSTR void parts_of(const asn_TYPE_descriptor_t *td) {
+    unsigned i;
+    part(td, "descriptor", td); part(td, "name", td->name); part(td, "xml_tag", td->xml_tag); part(td, "op", td->op);
+    part(td, "tags", td->tags); part(td, "all_tags", td->all_tags);
+    part(td, "oer_constraints", td->encoding_constraints.oer_constraints); part(td, "per_constraints", td->encoding_constraints.per_constraints);
+    part(td, "elements", td->elements); part(td, "specifics", td->specifics);
+    for(i = 0; i < td->elements_count; i++) {
+        const asn_TYPE_member_t *e = &td->elements[i];
+        part(td, "member.type", e->type); part(td, "member.name", e->name);
+        part(td, "member.oer_constraints", e->encoding_constraints.oer_constraints); part(td, "member.per_constraints", e->encoding_constraints.per_constraints);
+    }
+    if(!td->specifics) return;
+    if(td->op == &asn_OP_SEQUENCE) {
+        const asn_SEQUENCE_specifics_t *sp = td->specifics;
+        part(td, "specifics.tag2el", sp->tag2el); part(td, "specifics.oms", sp->oms);
+    } else if(td->op == &asn_OP_SET) {
+        const asn_SET_specifics_t *sp = td->specifics;
+        part(td, "specifics.tag2el", sp->tag2el); part(td, "specifics.tag2el_cxer", sp->tag2el_cxer); part(td, "specifics._mandatory_elements", sp->_mandatory_elements);
+    } else if(td->op == &asn_OP_CHOICE) {
+        const asn_CHOICE_specifics_t *sp = td->specifics;
+        part(td, "specifics.tag2el", sp->tag2el); part(td, "specifics.to_canonical_order", sp->to_canonical_order);
+        part(td, "specifics.from_canonical_order", sp->from_canonical_order);
+    } else if(td->op == &asn_OP_INTEGER || td->op == &asn_OP_ENUMERATED || td->op == &asn_OP_NativeInteger || td->op == &asn_OP_NativeEnumerated) {
+        const asn_INTEGER_specifics_t *sp = td->specifics;
+        part(td, "specifics.value2enum", sp->value2enum); part(td, "specifics.enum2value", sp->enum2value);
+        if(sp->value2enum && sp->map_count > 0) part(td, "specifics.value2enum[0].enum_name", sp->value2enum[0].enum_name);
+    }
+}
+
+
+/* Pointer closure of the image (the hypothesis `closed` of coq/Conc/DescrClosure.v, tied directly): no word of the watched image
+ * holds the address of WRITABLE memory outside the image (heap, another object's data, the stack).  Words pointing into the
+ * library itself or into read-only / executable mappings are fine; everything else that looks like an address is reported
+ * (the check drops the dynamic linker's own slots, .got / .got.plt, by section). */
+#define MAXMAP 512
+static struct { uintptr_t lo, hi; int writable; char name[48]; } MAPS[MAXMAP];
+static int NMAPS;
+static NOINSTR void read_maps(void) {
+    FILE *f = fopen("/proc/self/maps", "r");
+    char line[512];
+    NMAPS = 0;
+    if(!f) return;
+    while(fgets(line, sizeof line, f) && NMAPS < MAXMAP) {
+        unsigned long lo, hi; char perms[8]; int off = 0;
+        if(sscanf(line, "%lx-%lx %7s %*s %*s %*s %n", &lo, &hi, perms, &off) < 3) continue;
+        MAPS[NMAPS].lo = lo; MAPS[NMAPS].hi = hi; MAPS[NMAPS].writable = (perms[1] == 'w');
+        {
+            const char *nm = off ? line + off : "";
+            const char *sl = strrchr(nm, '/');
+            size_t k;
+            if(sl) nm = sl + 1;
+            for(k = 0; k < sizeof MAPS[0].name - 1 && nm[k] && nm[k] != '\n' && nm[k] != ' '; k++) MAPS[NMAPS].name[k] = nm[k];
+            MAPS[NMAPS].name[k] = 0;
+            if(!k) strcpy(MAPS[NMAPS].name, "anon");
+        }
+        NMAPS++;
+    }
+    fclose(f);
+}
+static NOINSTR unsigned long scan_closure(const char *when) {
+    unsigned long nptr_in = 0, nbad = 0;
+    int i, k;
+    read_maps();
+    for(i = 0; i < NSEG; i++) {
+        uintptr_t a;
+        for(a = (SEGS[i].lo + 7) & ~(uintptr_t)7; a + 8 <= SEGS[i].hi; a += 8) {
+            uintptr_t v = *(const uintptr_t *)a;
+            if(v < 4096) continue;
+            if(v >= LIB_LO && v < LIB_HI) { nptr_in++; continue; }
+            for(k = 0; k < NMAPS; k++)
+                if(v >= MAPS[k].lo && v < MAPS[k].hi) {
+                    if(MAPS[k].writable) {
+                        nbad++;
+                        if(nbad <= 64) printf("PTRX when=%s off=0x%lx target=%s\n", when, (unsigned long)(a - LIB_BASE), MAPS[k].name);
+                    }
+                    break;
+                }
+        }
+    }
+    printf("CLOSURE when=%s words_pointing_into_library=%lu words_pointing_to_writable_memory_outside=%lu\n", when, nptr_in, nbad);
+    return nbad;
+}
+
 /* function coverage of the library side (-finstrument-functions) */
 #define FSET 16384
 static void *FSEEN[FSET];
@@ -880,7 +1318,7 @@ NOINSTR void __cyg_profile_func_exit(void *fn, void *site) { (void)fn; (void)sit
 
 static NOINSTR void hex16(const uint8_t *b) { int i; for(i = 0; i < 16; i++) printf("%02x", b[i]); }
 
-static NOINSTR int main_ro(uint64_t seed, int iters) {
+static NOINSTR int main_ro(uint64_t seed, int iters, int protect) {
     struct ctx c;
     struct sigaction sa;
     stack_t ss;
@@ -888,15 +1326,22 @@ static NOINSTR int main_ro(uint64_t seed, int iters) {
     unsigned long ndiff = 0;
     memset(&c, 0, sizeof c);
     c.log.on = 0;
+    COUNT_VALUES = 1;
+    COUNT_OPS = 1;
     RO_CTX = &c;
     PAGE = sysconf(_SC_PAGESIZE);
-    dl_iterate_phdr(phdr_cb, 0);
-    if(!NSEG) { printf("RO error no-writable-segment-of-libc19mod-found\n"); return 2; }
+    if(protect) dl_iterate_phdr(phdr_cb, 0);
+    if(protect && !NSEG) { printf("RO error no-writable-segment-of-libc19mod-found\n"); return 2; }
     for(i = 0; i < NSEG; i++) {
         SEGS[i].snap = malloc(SEGS[i].hi - SEGS[i].lo);
         memcpy(SEGS[i].snap, (void *)SEGS[i].lo, SEGS[i].hi - SEGS[i].lo);
         printf("SEG %d lo=0x%lx hi=0x%lx relro_lo=0x%lx relro_hi=0x%lx\n", i, (unsigned long)(SEGS[i].lo - LIB_BASE), (unsigned long)(SEGS[i].hi - LIB_BASE),
                (unsigned long)(RELRO_LO - LIB_BASE), (unsigned long)(RELRO_HI - LIB_BASE));
+    }
+    if(protect) {
+        for(i = 0; i < NTY; i++) parts_of(TY[i]);
+        printf("PARTS w=%lu r=%lu outside=%lu\n", PARTS_W, PARTS_R, PARTS_X);
+        scan_closure("start");
     }
     ss.ss_sp = malloc(1 << 16); ss.ss_size = 1 << 16; ss.ss_flags = 0;
     sigaltstack(&ss, 0);
@@ -911,7 +1356,7 @@ static NOINSTR int main_ro(uint64_t seed, int iters) {
     sa.sa_sigaction = on_trap;
     sigaction(SIGTRAP, &sa, 0);
     fflush(stdout);
-    protect_all(PROT_READ);   /* before the first use of any type */
+    if(protect) protect_all(PROT_READ);   /* before the first use of any type */
 #ifdef C19_CANARY
     c.op = "selftest";
     c19_canary_poke();        /* three stores the detector must report (the check verifies that it does) */
@@ -924,13 +1369,48 @@ static NOINSTR int main_ro(uint64_t seed, int iters) {
             int sig;
             recover_armed = 1;
             if((sig = sigsetjmp(RECOVER, 1)) == 0) {
-                if(i < 0) leaf_round(&c); else one_round(&c, i);
+                if(i < 0) leaf_round(&c); else { one_round(&c, i); mutilated_round(&c, i); null_round(&c, i); }
             } else {
                 ncrash++;
                 if(pending_addr) { pending_addr = 0; protect_all(PROT_READ); }
                 printf("CRASH sig=%d op=%s type=%s iter=%d\n", sig, c.op ? c.op : "?", i >= 0 ? TY[i]->name : "-", it);
             }
             recover_armed = 0;
+#ifndef ASN_DISABLE_OER_SUPPORT
+            /* known finding probes (see can_decode): the OER entry points on a type without an OER codec; each in its own recovery scope */
+            if(i >= 0 && it == 0 && !NOT_PDU[i] && !TY[i]->op->oer_decoder) {
+                recover_armed = 1;
+                if((sig = sigsetjmp(RECOVER, 1)) == 0) {
+                    void *pst = 0;
+                    asn_dec_rval_t prv;
+                    c.td = TY[i];
+                    c.op = "asn_decode(OER) on a type without OER decoder"; c.nops++;
+                    prv = asn_decode(0, ATS_BASIC_OER, TY[i], &pst, "", 0);
+                    printf("PROBE oer-null-codec type=%s op=asn_decode survived rc=%d\n", TY[i]->name, (int)prv.code);
+                    ASN_STRUCT_FREE(*TY[i], pst);
+                } else {
+                    if(pending_addr) { pending_addr = 0; protect_all(PROT_READ); }
+                    printf("PROBE oer-null-codec type=%s op=asn_decode sig=%d\n", TY[i]->name, sig);
+                }
+                recover_armed = 0;
+            }
+            if(i >= 0 && it == 0 && !NOT_PDU[i] && !TY[i]->op->oer_encoder) {
+                recover_armed = 1;
+                if((sig = sigsetjmp(RECOVER, 1)) == 0) {
+                    buf_t po = {0, 0, 0, 0, 0};
+                    asn_enc_rval_t per;
+                    c.td = TY[i];
+                    c.op = "oer_encode() on a type without OER encoder"; c.nops++;
+                    per = oer_encode(TY[i], &po /* any non-NULL structure pointer: it is never looked at */, cb_buf, &po);
+                    printf("PROBE oer-null-codec type=%s op=oer_encode survived rc=%ld\n", TY[i]->name, (long)per.encoded);
+                    free(po.p);
+                } else {
+                    if(pending_addr) { pending_addr = 0; protect_all(PROT_READ); }
+                    printf("PROBE oer-null-codec type=%s op=oer_encode sig=%d\n", TY[i]->name, sig);
+                }
+                recover_armed = 0;
+            }
+#endif
         }
     }
     for(i = 0; i < NEV; i++) {
@@ -953,12 +1433,188 @@ static NOINSTR int main_ro(uint64_t seed, int iters) {
             }
         }
     }
+    if(protect) scan_closure("end");
     for(i = 0; i < FSET; i++)
         if(FSEEN[i]) printf("FUNC 0x%lx\n", (unsigned long)((uintptr_t)FSEEN[i] - LIB_BASE));
+    for(i = 0; i < NTY; i++)
+        if(!NOT_PDU[i]) printf("VAL %lu %lu %s\n", NVALID[i], NINVALID[i], TY[i]->name);
+    for(i = 0; i < MAXOPL && OPL[i].name; i++) printf("OPS %lu %s\n", OPL[i].n, OPL[i].name);
     printf("RO %s seed=%llu iters=%d types=%d ops=%lu stores=%lu distinct=%d diffs=%lu crashes=%d\n", (NEV - nev_canary || ndiff) ? "WRITTEN" : "clean",
            (unsigned long long)seed, iters, NTY, c.nops, NSTORES - nev_canary, NEV - nev_canary, ndiff, ncrash);
     fflush(stdout);
+    if(!protect) return 0;   /* `cov` mode: leave through exit() so that the gcov counters are written */
     _exit((NEV - nev_canary || ndiff) ? 4 : 0);   /* no destructors: the library image stays read-only */
+}
+
+
+/* ================================================================== shapes: what the codecs branch on, read from the tables */
+/* One line per descriptor (and one per member that carries PER/OER constraints of its own): the decisions the skeleton
+ * codecs take on the contents of specifics / member tables / constraint records (lib/c19_zoo.py SHAPES names them and says
+ * where each is tested).  Evaluated on the tables the generated code links, not on the ASN.1 text. */
+static NOINSTR void setbit(unsigned *m, int v) { *m |= 1u << v; }
+static NOINSTR void pset(const char *key, unsigned mask, const char *const *names) {
+    int i, first = 1;
+    if(!mask) return;
+    printf(" %s=", key);
+    for(i = 0; names[i]; i++) if(mask & (1u << i)) { printf("%s%s", first ? "" : ",", names[i]); first = 0; }
+}
+static const char *const N01[] = {"0", "1", 0};
+static NOINSTR int is_string_type(const asn_TYPE_descriptor_t *td) {
+    return td->op->free_struct == OCTET_STRING_free && td->op != &asn_OP_ANY;
+}
+static NOINSTR int is_int_type(const asn_TYPE_descriptor_t *td) {
+    return td->op == &asn_OP_INTEGER || td->op == &asn_OP_ENUMERATED || td->op == &asn_OP_NativeInteger || td->op == &asn_OP_NativeEnumerated;
+}
+static NOINSTR int is_of_type(const asn_TYPE_descriptor_t *td) { return td->op == &asn_OP_SET_OF || td->op == &asn_OP_SEQUENCE_OF; }
+static NOINSTR void constraint_shapes(const asn_TYPE_descriptor_t *td, const asn_encoding_constraints_t *ec) {
+#ifndef ASN_DISABLE_PER_SUPPORT
+    const asn_per_constraints_t *pc = ec->per_constraints;
+    if(is_int_type(td)) {
+        const char *v = "none";
+        if(pc) {
+            const asn_per_constraint_t *ct = &pc->value;
+            if(ct->flags & APC_EXTENSIBLE) v = "ext";
+            else if(ct->flags & APC_SEMI_CONSTRAINED) v = "semi";
+            else if(ct->flags & APC_CONSTRAINED) v = ct->range_bits == 0 ? "0bits" : ct->range_bits <= 16 ? "le16" : "gt16";
+        }
+        printf(" int.per=%s", v);
+    }
+    if(is_string_type(td) || is_of_type(td)) {
+        const char *v = "none";
+        if(pc) {
+            const asn_per_constraint_t *ct = &pc->size;
+            if(ct->flags & APC_EXTENSIBLE) v = "ext";
+            else if(ct->flags & APC_SEMI_CONSTRAINED) v = "semi";
+            else if(ct->flags & APC_CONSTRAINED) {
+                if(ct->effective_bits < 0 || ct->upper_bound >= 65536) v = "semi";
+                else if(ct->lower_bound == ct->upper_bound) v = (is_string_type(td) && ct->upper_bound <= 2) ? "fixed_le2" : "fixed";
+                else v = "range";
+            }
+        }
+        printf(" %s=%s", is_of_type(td) ? "of.size_per" : "str.size_per", v);
+    }
+    if(is_string_type(td)) {
+        const char *v = "none";
+        if(pc && (pc->value.flags & APC_CONSTRAINED)) v = pc->value2code ? "map" : "range";
+        printf(" str.alphabet_per=%s", v);
+    }
+#endif
+#ifndef ASN_DISABLE_OER_SUPPORT
+    if(is_int_type(td)) printf(" int.oer_width=%u", ec->oer_constraints ? ec->oer_constraints->value.width : 0);
+#endif
+    (void)td; (void)ec;
+}
+static NOINSTR void member_shapes(const asn_TYPE_descriptor_t *td) {
+    static const char *const NTM[] = {"-1", "0", "1", 0};
+    unsigned ptr = 0, ot = 0, any = 0, opt = 0, run = 0, tm = 0, uch = 0, dfl = 0, own = 0, named = 0;
+    unsigned i;
+    for(i = 0; i < td->elements_count; i++) {
+        const asn_TYPE_member_t *e = &td->elements[i];
+        setbit(&ptr, (e->flags & ATF_POINTER) ? 1 : 0);
+        setbit(&ot, (e->flags & ATF_OPEN_TYPE) ? 1 : 0);
+        setbit(&any, (e->flags & ATF_ANY_TYPE) ? 1 : 0);
+        setbit(&opt, e->optional ? 1 : 0);
+        /* SEQUENCE_decode_ber: opt_edx_end = edx + optional + 1, capped at elements_count; bsearch when more than 8 candidates */
+        setbit(&run, (td->op == &asn_OP_SEQUENCE && i + e->optional + 1 <= td->elements_count && e->optional + 1 > 8) ? 1 : 0);
+        setbit(&tm, e->tag_mode < 0 ? 0 : e->tag_mode == 0 ? 1 : 2);
+        setbit(&uch, (e->tag == (ber_tlv_tag_t)-1 && !(e->flags & (ATF_ANY_TYPE | ATF_OPEN_TYPE))) ? 1 : 0);
+        setbit(&dfl, (e->default_value_cmp || e->default_value_set) ? 1 : 0);
+        setbit(&own, e->encoding_constraints.general_constraints ? 1 : 0);
+        setbit(&named, (e->name && e->name[0]) ? 1 : 0);
+    }
+    pset("memb.pointer", ptr, N01); pset("memb.open_type", ot, N01); pset("memb.any_type", any, N01); pset("memb.optional", opt, N01);
+    if(td->op == &asn_OP_SEQUENCE) pset("memb.optional_run_gt8", run, N01);
+    pset("memb.tag_mode", tm, NTM); pset("memb.untagged_choice", uch, N01); pset("memb.default", dfl, N01); pset("memb.own_constraint", own, N01);
+    if(is_of_type(td)) pset("memb.named", named, N01);
+}
+static NOINSTR void shape_of(const asn_TYPE_descriptor_t *td) {
+    unsigned i;
+    const char *kind = td->op == &asn_OP_SEQUENCE ? "SEQUENCE" : td->op == &asn_OP_SET ? "SET" : td->op == &asn_OP_CHOICE ? "CHOICE"
+                     : td->op == &asn_OP_SEQUENCE_OF ? "SEQUENCE_OF" : td->op == &asn_OP_SET_OF ? "SET_OF" : td->op == &asn_OP_OPEN_TYPE ? "OPEN_TYPE" : "prim";
+    printf(" kind=%s", kind);
+    if(td->elements_count) member_shapes(td);
+    if(td->op == &asn_OP_SEQUENCE && td->specifics) {
+        const asn_SEQUENCE_specifics_t *sp = td->specifics;
+        int dup = 0;
+        for(i = 0; i < sp->tag2el_count; i++) if(sp->tag2el[i].toff_first || sp->tag2el[i].toff_last) dup = 1;
+        printf(" seq.extensible=%d", sp->first_extension >= 0);
+        if(sp->first_extension >= 0) printf(" seq.ext_members=%d", (unsigned)sp->first_extension < td->elements_count);
+        printf(" seq.roms=%d seq.aoms=%d seq.tag2el_dup=%d", sp->roms_count > 0, sp->aoms_count > 0, dup);
+    }
+    if(td->op == &asn_OP_SET && td->specifics) {
+        const asn_SET_specifics_t *sp = td->specifics;
+        unsigned words = (td->elements_count + 31) / 32, any_mand = 0, differs = 0;
+        for(i = 0; i < words; i++) if(sp->_mandatory_elements[i]) any_mand = 1;
+        if(sp->tag2el_cxer_count != sp->tag2el_count) differs = 1;
+        else for(i = 0; i < sp->tag2el_count; i++) if(sp->tag2el[i].el_no != sp->tag2el_cxer[i].el_no) differs = 1;
+        printf(" set.own_tagmap=%d set.extensible=%d set.presence_words=%s set.all_optional=%d set.cxer_map_differs=%d",
+               sp->tag2el_count != td->elements_count, sp->extensible != 0, words > 1 ? "2+" : "1", !any_mand, differs);
+    }
+    if(td->op == &asn_OP_CHOICE && td->specifics) {
+        const asn_CHOICE_specifics_t *sp = td->specifics;
+        int hi = 0;
+        for(i = 0; i < td->elements_count; i++)
+            if(td->elements[i].tag != (ber_tlv_tag_t)-1 && BER_TAG_VALUE(td->elements[i].tag) >= 63) hi = 1;
+        printf(" choice.extensible=%d choice.canonical_order=%d choice.pres_size=%u choice.tagged=%d choice.tag2el_more=%d choice.alt_tag_ge63=%d",
+               sp->ext_start >= 0, sp->to_canonical_order != 0, sp->pres_size, td->tags_count > 0, sp->tag2el_count > td->elements_count, hi);
+    }
+    if(is_of_type(td) && td->specifics) {
+        const asn_SET_OF_specifics_t *sp = td->specifics;
+        printf(" of.xml_value_list=%d of.elem_untagged_choice=%d", sp->as_XMLValueList, td->elements[0].tag == (ber_tlv_tag_t)-1);
+    }
+    {
+        int lf = 0;
+        for(i = 0; i < td->all_tags_count; i++) if(BER_TAG_VALUE(td->all_tags[i]) >= 31) lf = 1;
+        for(i = 0; i < td->elements_count; i++)
+            if(td->elements[i].tag != (ber_tlv_tag_t)-1 && BER_TAG_VALUE(td->elements[i].tag) >= 31) lf = 1;
+        printf(" tags.count=%s tags.all_differs=%d tags.long_form=%d", td->tags_count == 0 ? "0" : td->tags_count == 1 ? "1" : "2+",
+               td->all_tags_count != td->tags_count || (td->tags_count && memcmp(td->tags, td->all_tags, td->tags_count * sizeof(td->tags[0])) != 0), lf);
+    }
+    if(is_int_type(td)) {
+        const asn_INTEGER_specifics_t *sp = td->specifics;
+        printf(" int.specifics=%d", sp != 0);
+        if(sp) printf(" int.map=%s int.map_extension=%d int.strict_enum=%d int.unsigned=%d", sp->map_count == 0 ? "0" : sp->map_count <= 8 ? "small" : "big",
+                      sp->extension != 0, sp->strict_enumeration != 0, sp->field_unsigned != 0);
+    }
+    if(is_string_type(td)) {
+        const asn_OCTET_STRING_specifics_t *sp = td->specifics ? td->specifics : &asn_SPC_OCTET_STRING_specs;
+        static const char *const SV[] = {"ANY", "BIT", "STR", "U16", "U32"};
+        printf(" str.subvariant=%s", (unsigned)sp->subvariant < 5 ? SV[sp->subvariant] : "?");
+    }
+    if(td->op == &asn_OP_ANY) printf(" str.subvariant=ANY");
+    if(td->op == &asn_OP_NativeReal) {
+        const asn_NativeReal_specifics_t *sp = td->specifics;
+        printf(" real.float=%d", sp && sp->float_size == sizeof(float));
+    }
+    constraint_shapes(td, &td->encoding_constraints);
+}
+static NOINSTR int main_shapes(void) {
+    int i;
+    unsigned k;
+    for(i = 0; i < NTY; i++) {
+        const asn_TYPE_descriptor_t *td = TY[i];
+        const char *src = !HAS_NOFILL[i] ? "fill" : (SEEDS[i] && SEEDS[i][0]) ? "seeds" : "none";
+        if(NOT_PDU[i]) {   /* an open type member: values exist only inside its parents */
+            int j;
+            src = "notpdu";
+            for(j = 0; j < NTY; j++)
+                for(k = 0; k < TY[j]->elements_count; k++)
+                    if(TY[j]->elements[k].type == td && (!HAS_NOFILL[j] || (SEEDS[j] && SEEDS[j][0]))) src = "parent";
+        }
+        printf("SHAPE %s src=%s", td->name, src);
+        shape_of(td);
+        printf("\n");
+        /* constraints a member adds on top of its type are handed down by the parent codec (elm->encoding_constraints) */
+        for(k = 0; k < td->elements_count; k++) {
+            const asn_TYPE_member_t *e = &td->elements[k];
+            if(!e->type || (!e->encoding_constraints.per_constraints && !e->encoding_constraints.oer_constraints)) continue;
+            if(!(is_int_type(e->type) || is_string_type(e->type) || is_of_type(e->type))) continue;
+            printf("SHAPE %s.%s src=%s", td->name, e->name, NOT_PDU[i] ? "notpdu" : !HAS_NOFILL[i] ? "fill" : (SEEDS[i] && SEEDS[i][0]) ? "seeds" : "none");
+            constraint_shapes(e->type, &e->encoding_constraints);
+            printf("\n");
+        }
+    }
+    return 0;
 }
 
 NOINSTR int main(int ac, char **av) {
@@ -972,6 +1628,7 @@ NOINSTR int main(int ac, char **av) {
                    HAS_NOPER[i], HAS_NOOER[i], IS_REC[i], HAS_NOFILL[i], HAS_OPEN[i], NOT_PDU[i], SEEDS[i] && SEEDS[i][0] ? 1 : 0);
         return 0;
     }
+    if(!strcmp(mode, "shapes")) return main_shapes();
     if(!strcmp(mode, "log")) {   /* one script alone, log to stdout (replay aid) */
         struct ctx c;
         memset(&c, 0, sizeof c);
@@ -980,7 +1637,8 @@ NOINSTR int main(int ac, char **av) {
         fwrite(c.log.p, 1, c.log.n, stdout);
         return 0;
     }
-    if(!strcmp(mode, "ro")) return main_ro(seed, ac > 3 ? atoi(av[3]) : 1);
+    if(!strcmp(mode, "ro")) return main_ro(seed, ac > 3 ? atoi(av[3]) : 1, 1);
+    if(!strcmp(mode, "cov")) return main_ro(seed, ac > 3 ? atoi(av[3]) : 1, 0);   /* the ro battery, image left writable (gcov build) */
     if(!strcmp(mode, "thr")) return main_thr(seed, ac > 3 ? atoi(av[3]) : 2, ac > 4 ? atoi(av[4]) : 1);
     fprintf(stderr, "usage: c19drv types | ro <seed> <iters> | thr <seed> <nthreads> <iters>\n");
     return 2;
